@@ -51,13 +51,14 @@ _uid = 0
 
 
 def _tlc(module: str, cfg: str, env: dict | None = None, workers: int | str = 1, xmx: str = "2g",
-         extra: list | None = None, timeout: int = 3600, tag: str = "") -> dict:
+         extra: list | None = None, timeout: int = 3600, tag: str = "", gc: int = 2, xss: str = "64m") -> dict:
     """Run TLC on /verif/spec/<module>.tla with config <cfg>. Returns dict(out, states, distinct, rc)."""
     global _uid
     _uid += 1
     meta = workdir() / f"meta_{module}_{tag}_{_uid}_{time.time_ns()}"
     meta.mkdir(parents=True, exist_ok=True)
-    cmd = ["java", f"-Xmx{xmx}", "-XX:+UseParallelGC", "-cp", JAR, "tlc2.TLC",
+    cmd = ["java", f"-Xmx{xmx}", f"-Xss{xss}", "-XX:+UseParallelGC", f"-XX:ParallelGCThreads={gc}", "-cp", JAR,
+           "tlc2.TLC",
            "-workers", str(workers), "-metadir", str(meta), "-noGenerateSpecTE",
            "-config", cfg] + (extra or []) + [module]
     e = dict(os.environ)
@@ -82,7 +83,7 @@ def model_check(module: str, cfg: str | None = None, workers: int | str = "auto"
                 env: dict | None = None, extra: list | None = None, xmx: str = "8g") -> dict:
     """Stage A. A failure here is a machinery failure (the oracle is inconsistent), never a VIOLATION."""
     r = _tlc(module, cfg or f"{module}.cfg", env=env, workers=workers, timeout=timeout, extra=extra, xmx=xmx,
-             tag="mc")
+             tag="mc", gc=4)
     ok = r["rc"] == 0 and "Model checking completed. No error has been found." in r["out"]
     if not ok:
         sys.stdout.write(r["out"][-6000:])
